@@ -3,9 +3,14 @@
    class has a handler; exhaustive) and, by the generic theorem Disp.disp_total, structuring any class target on ANY input
    with ANY fuel never ends in an unsupported-type error; (2) the alias objects that are NOT usable as top-level targets
    are exactly inside the committed known-findings list.  That each handler picks an alternative for which the value is
-   valid is decided by the abstract-interpretation obligations of C01 (shared) and validated on the per-site stream. *)
-From LSP Require Import Base MM Sem SemThy Disp.
+   valid is PROVED for the covered part (props/Cover.v) — [C14_every_alternative_parses]: wherever the metamodel uses an `or` type
+   whose Python image is a covered annotation, a closed-valid value of ANY of its alternatives is structured (no error at all) into a
+   value of the union's type — a value of one of the alternatives (Denote.has_type, t_union) — that serialises back to the input up to
+   nulls; the or-typed members of covered structures are all such places ([C14_or_members_of_covered_structures]).  Elsewhere: the
+   per-site stream. *)
+From LSP Require Import Base MM Sem SemThy Disp Denote RoundTrip HookFrag Image ImageThy Link MMRound.
 From Gen Require Import MMData PkgData Known.
+From Props Require Import Cover.
 
 Theorem C14_no_union_without_handler : W_disp Sg = true.
 Proof. vm_compute. reflexivity. Qed.
@@ -30,6 +35,28 @@ Definition bad_alias_targets : list string :=
 Theorem C14_bad_alias_targets_are_known : subset bad_alias_targets known_alias_targets_C14 = true.
 Proof. vm_compute. reflexivity. Qed.
 
+(* ------------------------------------------------------------ each alternative, covered part *)
+Theorem C14_every_alternative_parses (pystr : json -> string) : forall items alt j p k n0,
+  In alt items -> cvalid mm alt j -> wfp p = true -> smatch mm Sg alias_objects k (py_of mm n0 (TOr items)) p = true ->
+  okty Sg (fst cov) (snd cov) p = true ->
+  exists n o jj, structure Sg pystr n p j = Ok o /\ has_type Sg p o /\ unstr Sg n (Some p) o = Ok jj /\ RoundTrip.NEq j jj.
+Proof.
+  intros items alt j p k n0 I V W M O.
+  exact (mm_covered_roundtrip pystr (TOr items) j p k n0 (c_or mm items alt j I V) W M O).
+Qed.
+(* the or-typed members of the covered structures: their attribute's annotation is a covered annotation (so the theorem above applies
+   with p := that annotation once it is the image of the member's type, which W_img establishes) *)
+Definition or_members : list (string * string) :=
+  flat_map (fun s => if mem (s_name s) (fst cov)
+                     then flat_map (fun q => match p_type q with TOr _ => [(s_name s, p_name q)] | _ => [] end) (flat mm (s_name s)) else []) (structures mm).
+Definition or_member_ok (sq : string * string) : bool :=
+  match lookup_cls Sg (fst sq) with
+  | Some fs => match find (fun f => String.eqb (fwire f) (snd sq)) fs with
+               | Some f => okty Sg (fst cov) (snd cov) (ftype f) | None => false end
+  | None => false end.
+Theorem C14_or_members_of_covered_structures : forallb or_member_ok or_members = true /\ Nat.leb 80 (length or_members) = true.
+Proof. split; vm_compute; reflexivity. Qed.
+
 Example C14_example : (length (uhooks Sg) >= 50) /\ (length (filter (fun a => good Sg (snd a)) alias_objects) >= 20).
 Proof. vm_compute. split; repeat constructor. Qed.
 
@@ -37,3 +64,5 @@ Print Assumptions C14_no_union_without_handler.
 Print Assumptions C14_never_unsupported.
 Print Assumptions C14_alias_never_unsupported.
 Print Assumptions C14_bad_alias_targets_are_known.
+Print Assumptions C14_every_alternative_parses.
+Print Assumptions C14_or_members_of_covered_structures.
